@@ -694,6 +694,9 @@ func (c *Conn) reconnect(ctx context.Context) error {
 		return resErr
 	}
 	c.wireConn = res
+	// lowered before the state changes: a Close that finds the connection connected again must shut it down itself
+	// (it waits for the mutex, which is released right below)
+	c.setRedialing(false)
 	if !c.state.CompareAndSwap(connStatusReconnecting, connStatusConnected) {
 		if c.state.Is(connStatusClosed) {
 			// Close was called while redialling: give up the fresh connection instead of panicking
